@@ -672,8 +672,13 @@ def _sensors(py, sensor_times, kinds=("Position", "NedVelocity", "BodyVelocity")
         # every other table has its rows newest-first (labelled data; the filters sort the union of stamps themselves)
         if n and np.all(times == np.round(times)):
             times = times.astype(np.int64)
-        if k % 2 == 1 and n > 1:
+        # (which storage a table gets depends on its position AND on the number of sensors, so that a single table, the first of
+        # several and tables sharing one index all occur in time order, newest-first and as two logs appended in the wrong order)
+        mode = (k + 2 * len(sensor_times)) % 3
+        if mode == 1 and n > 1:
             times = times[::-1]
+        elif mode == 2 and n > 1:
+            times = np.concatenate([times[n // 2:], times[:n // 2]])
         if kind == "Position":
             d = pd.DataFrame(dict(lat=55.0 + 1e-6 * np.arange(n), lon=37.0 + 0.0 * times, alt=150.0 + 0.0 * times), index=times)
             out.append(M.Position(d, 3.0))
